@@ -70,6 +70,72 @@ Definition oq_eqb (x y : o_query) : bool :=
 Definition otl_eqb (x y : o_tl) : bool :=
   match x, y with (a, l, d), (a', l', d') => (a =? a') && list_eqb N.eqb l l' && (d =? d') end.
 
+(* ---- UTF-8 as utf8.DecodeRune sees it; what encoding/json does to a string on the way out ----
+   json.Marshal copies every well-formed rune and writes \ufffd for each byte at which DecodeRune
+   reports (RuneError, 1); Unmarshal turns that escape into the three bytes EF BF BD. *)
+Definition u8cont (b : N) : bool := ((128 <=? b) && (b <=? 191))%N.
+Definition u8bad : bytes := [239; 191; 189]%N.
+Fixpoint utf8_fix (fuel : nat) (bs : bytes) {struct fuel} : bytes :=
+  match fuel with
+  | O => []
+  | S f =>
+      match bs with
+      | [] => []
+      | b :: r =>
+          if (b <? 128)%N then b :: utf8_fix f r
+          else if ((194 <=? b) && (b <=? 223))%N then
+            match r with
+            | c1 :: r1 => if u8cont c1 then b :: c1 :: utf8_fix f r1 else (u8bad ++ utf8_fix f r)%list
+            | _ => (u8bad ++ utf8_fix f r)%list
+            end
+          else if ((224 <=? b) && (b <=? 239))%N then
+            match r with
+            | c1 :: c2 :: r2 =>
+                let lo := if (b =? 224)%N then 160%N else 128%N in
+                let hi := if (b =? 237)%N then 159%N else 191%N in
+                if ((lo <=? c1) && (c1 <=? hi))%N && u8cont c2 then b :: c1 :: c2 :: utf8_fix f r2
+                else (u8bad ++ utf8_fix f r)%list
+            | _ => (u8bad ++ utf8_fix f r)%list
+            end
+          else if ((240 <=? b) && (b <=? 244))%N then
+            match r with
+            | c1 :: c2 :: c3 :: r3 =>
+                let lo := if (b =? 240)%N then 144%N else 128%N in
+                let hi := if (b =? 244)%N then 143%N else 191%N in
+                if ((lo <=? c1) && (c1 <=? hi))%N && u8cont c2 && u8cont c3 then b :: c1 :: c2 :: c3 :: utf8_fix f r3
+                else (u8bad ++ utf8_fix f r)%list
+            | _ => (u8bad ++ utf8_fix f r)%list
+            end
+          else (u8bad ++ utf8_fix f r)%list
+      end
+  end.
+Definition json_string_roundtrip (bs : bytes) : bytes := utf8_fix (S (length bs)) bs.
+Definition utf8_validb (bs : bytes) : bool := bytes_eqb (json_string_roundtrip bs) bs.
+
+(* signature of the known finding metadata-invalid-utf8: some metadata string is not valid UTF-8, and the
+   reloaded metadata is exactly what encoding/json makes of it (rate unchanged) *)
+Definition metadata_invalid_utf8 (m0 m1 : o_meta) : bool :=
+  match m0, m1 with
+  | (a, b, c, d), (a', b', c', d') =>
+      negb (utf8_validb a && utf8_validb c && utf8_validb d) && N.eqb b b' &&
+      bytes_eqb a' (json_string_roundtrip a) && bytes_eqb c' (json_string_roundtrip c) &&
+      bytes_eqb d' (json_string_roundtrip d)
+  end.
+
+(* the part of the serialised segment after the metadata block, and the format version *)
+Definition after_meta (bs : bytes) : option (N * bytes) :=
+  match uvarint_dec bs with None => None | Some (ver, bs1) =>
+  match uvarint_dec bs1 with None => None | Some (ml, bs2) =>
+  match (if (Nlen bs2 <? ml)%N then None else take_bytes (N.to_nat ml) bs2) with
+  | None => None
+  | Some (_, rest) => Some (ver, rest)
+  end end end.
+Definition same_but_meta (x y : bytes) : bool :=
+  match after_meta x, after_meta y with
+  | Some (v, r), Some (v', r') => N.eqb v v' && bytes_eqb r r'
+  | _, _ => false
+  end.
+
 Definition meta_of (m : o_meta) : meta :=
   match m with (a, b, c, d) => {| m_spy := a; m_rate := b; m_units := c; m_agg := d |} end.
 
@@ -114,36 +180,44 @@ Fixpoint run_build (ops : list b_op) (s : segment) (acc : list verdict) : segmen
   | BDel thr cbs gone :: ops' => let '(s', v) := model_del s thr cbs gone in run_build ops' s' (v :: acc)
   end.
 
-Fixpoint run_ops (ops : list d_op) (s : segment) (acc : list verdict) : segment * list verdict :=
+Fixpoint run_ops (mok : o_meta -> o_meta -> bool) (ops : list d_op) (s : segment) (acc : list verdict) : segment * list verdict :=
   match ops with
   | [] => (s, rev acc)
   | DPut w1 w2 :: ops' =>
       let '(s', v) := model_put s w1 in
-      run_ops ops' s' (v :: spec (ow_eqb w1 w2) "Put: the reloaded copy made different callbacks" :: acc)
+      run_ops mok ops' s' (v :: spec (ow_eqb w1 w2) "Put: the reloaded copy made different callbacks" :: acc)
   | DGet q1 q2 :: ops' =>
-      run_ops ops' s (model_get s q1 :: spec (oq_eqb q1 q2) "Get: the reloaded copy answered differently" :: acc)
+      run_ops mok ops' s (model_get s q1 :: spec (oq_eqb q1 q2) "Get: the reloaded copy answered differently" :: acc)
   | DDel thr c1 c2 g1 g2 :: ops' =>
       let '(s', v) := model_del s thr c1 g1 in
-      run_ops ops' s' (v :: spec (list_eqb kz_eqb c1 c2 && Bool.eqb g1 g2)
+      run_ops mok ops' s' (v :: spec (list_eqb kz_eqb c1 c2 && Bool.eqb g1 g2)
                                  "DeleteDataBefore: the reloaded copy behaved differently" :: acc)
   | DTimeline _ _ t1 t2 :: ops' =>
-      run_ops ops' s (spec (otl_eqb t1 t2) "timeline: the reloaded copy differs" :: acc)
+      run_ops mok ops' s (spec (otl_eqb t1 t2) "timeline: the reloaded copy differs" :: acc)
   | DMeta m1 m2 :: ops' =>
-      run_ops ops' s (spec (o_meta_eqb m1 m2) "metadata getters: the reloaded copy differs" :: acc)
+      run_ops mok ops' s (spec (mok m1 m2) "metadata getters: the reloaded copy differs" :: acc)
   end.
 
 Definition check_case (c : case) : verdict :=
   let '(m0, bv) := run_build (d_build c) s_empty [] in
   let m0 := s_set_meta (meta_of (d_meta c)) m0 in
   let dec := s_deserialize (fun _ => Some (meta_of (d_meta1 c))) (d_bytes c) in
-  let '(mend, ov) := run_ops (d_ops c) m0 [] in
-  combine_verdicts (
+  (* known finding: invalid UTF-8 in a metadata string is replaced by U+FFFD on save.  When its signature
+     holds, the comparisons that involve metadata are made modulo exactly that replacement: the getters of
+     the two copies must be the original resp. the replaced strings, and the serialised forms must agree
+     outside the metadata block.  Everything else is checked as usual. *)
+  let strict := o_meta_eqb (d_meta c) (d_meta1 c) in
+  let known := negb strict && metadata_invalid_utf8 (d_meta c) (d_meta1 c) in
+  let mok := if known then (fun m1 m2 => o_meta_eqb m1 (d_meta c) && o_meta_eqb m2 (d_meta1 c)) else o_meta_eqb in
+  let beq := if known then same_but_meta else bytes_eqb in
+  let '(mend, ov) := run_ops mok (d_ops c) m0 [] in
+  let r := combine_verdicts (
     [ spec (d_loaded c) "FromBytes failed on bytes written by Bytes";
       spec (oon_eqb (d_tree0 c) (d_tree1 c)) "the reloaded tree differs from the saved one";
-      spec (o_meta_eqb (d_meta c) (d_meta1 c)) "metadata differs after reload";
-      spec (bytes_eqb (d_bytes c) (d_rebytes c)) "re-saving the reloaded segment yields different bytes";
+      spec (strict || known) "metadata differs after reload";
+      spec (beq (d_bytes c) (d_rebytes c)) "re-saving the reloaded segment yields different bytes";
       spec (oon_eqb (d_end0 c) (d_end1 c)) "the two copies differ after the same operations";
-      spec (bytes_eqb (d_endbytes0 c) (d_endbytes1 c)) "the two copies serialise differently after the same operations" ]
+      spec (beq (d_endbytes0 c) (d_endbytes1 c)) "the two copies serialise differently after the same operations" ]
     ++ bv ++ ov ++
     [ corr (tree_matches m0 (d_tree0 c)) "model tree differs from the saved segment (put/delete model)";
       corr (match dec with
@@ -154,4 +228,8 @@ Definition check_case (c : case) : verdict :=
             | Some s => tree_matches s (d_tree0 c)
             | None => false
             end) "model encoder/decoder round trip differs from the saved segment";
-      corr (tree_matches mend (d_end0 c)) "model tree differs after the operations (put/delete model)" ]).
+      corr (tree_matches mend (d_end0 c)) "model tree differs after the operations (put/delete model)" ]) in
+  match r with
+  | Ok => if known then Known "metadata-invalid-utf8" else Ok
+  | _ => r
+  end.
